@@ -191,6 +191,31 @@ M("c09-clear-leak", "C09", "clear forgets to free when the vector is empty",
 M("c09-shrink-below", "C09", "shrink_to_fit shrinks to count - 1 when the vector is large",
   (VC, "        cstl_vector_set_capacity(v, v->count);", "        cstl_vector_set_capacity(v, v->count > 40 ? v->count - 1 : v->count);"))
 
+# ----------------------------------------------------------------- C10
+ST = "src/_string.c"
+M("c10-erase-no-terminator", "C10", "erase shrinks through the vector without rewriting the terminator",
+  (ST, "            (size - (idx + len)) * sizeof(cstl_STRING_char_t));\n    STRF(__resize, s, size - len);", "            (size - (idx + len)) * sizeof(cstl_STRING_char_t));\n    cstl_vector_resize(&s->v, size - len + 1);"))
+M("c10-resize-no-nulfill", "C10", "public resize does not NUL-fill new characters",
+  (ST, "    while (sz < n) {\n        *STRF(__at, s, sz++) = STRV(nul);\n    }", "    (void)sz;"))
+M("c10-memmove-short", "C10", "insert moves one character too few",
+  (ST, "                (size - pos) * sizeof(cstl_STRING_char_t));\n    }", "                (size - pos > 1 ? size - pos - 1 : size - pos) * sizeof(cstl_STRING_char_t));\n    }"))
+M("c10-wide-bytes", "C10", "insert tail move without the character-size factor (wide build only)",
+  (ST, "                (size - pos) * sizeof(cstl_STRING_char_t));\n    }", "                (size - pos));\n    }"))
+M("c10-clamp-wraps", "C10", "count clamp written as pos + n > size again (the repaired defect)",
+  (ST, "    if (*len > size - pos) {", "    if (pos + *len > size) {"))
+M("c10-insert-pos-ge", "C10", "insert position check uses >= (append at size aborts)... relaxed to > size + 1",
+  (ST, "    if (pos > STRF(size, s)) {\n        abort();", "    if (pos > STRF(size, s) + 1) {\n        abort();"))
+M("c10-find-from-start", "C10", "find_str searches from the start instead of pos",
+  (ST, "    f = STDSTRF(str, str + pos, n);", "    f = STDSTRF(str, str, n);"))
+M("c10-find-ch-terminator", "C10", "find_ch reports the terminator position for embedded search past it",
+  (ST, "    if (f != NULL && f != str + sz) {", "    if (f != NULL) {"))
+M("c10-substr-len", "C10", "substr copies one character less when clamped",
+  (ST, "    if (*len > size - pos) {\n        *len = size - pos;", "    if (*len > size - pos) {\n        *len = size - pos > 1 ? size - pos - 1 : size - pos;"))
+M("c10-str-reserved", "C10", "str() hands out reserved-but-empty storage again (the repaired defect)",
+  (ST, "    if (str == NULL || cstl_vector_size(&s->v) == 0) {", "    if (str == NULL) {"))
+M("c10-no-overflow-abort", "C10", "insert no longer aborts on an unrepresentable length (the repaired defect)",
+  (ST, "        if (len > SIZE_MAX - size) {\n            /* the resulting length cannot be represented */\n            abort();\n        }\n", ""))
+
 # ------------------------------------------------------- negative controls
 N("neg-vector-overallocate", ["C09", "C10"], "vector growth over-allocates",
   (VC, "    if (sz > v->cap) {\n        cstl_vector_set_capacity(v, sz);\n    }", "    if (sz > v->cap) {\n        cstl_vector_set_capacity(v, sz < 1000 ? sz + sz / 2 + 1 : sz);\n    }"))
